@@ -321,6 +321,8 @@ def slices(ctx, cone):
                     if what == "index < length" and "'top'" in repr(sx) and len(raw) == 2 and (kind in ("remove", "swap_remove") or not shrinks_vector(b, elem_ty)) \
                             and enumerate_index_provenance(b, raw[1]):
                         continue  # widened by the path analysis; every definition is an enumerate() index (MIR slice)
+                    if params_settle_it(ctx, b, norm(x), norm(y), strict):
+                        continue  # a private helper's parameter: every call site passes a constant that satisfies it
                     bad = bad or "%s at %s: %s %s %s is not established on the path" % (
                         kind, site.rsplit(":", 1)[0].rsplit("/", 1)[-1], A.show(U.strip(norm(x)))[:48], "<" if strict else "<=",
                         A.show(U.strip(norm(y)))[:48])
@@ -332,6 +334,45 @@ def slices(ctx, cone):
                          what="an out-of-range slice bound panics instead of returning an error")
         else:
             ck.ok("C19.slices", inst, max(nob, 1))
+
+
+def params_settle_it(ctx, b, x, y, strict):
+    """an obligation of a module-private function over its own integer parameters and constants only: decided at the call
+    sites -- every caller in the crate passes constants for those parameters and the inequality holds for each of them"""
+    from . import C10
+    facts = ctx.facts
+    if not C10.module_private(b) or b["kind"] == "Closure":
+        return False
+    lv = H.leaves(x) | H.leaves(y)
+    pidx = set()
+    for l in lv:
+        l = U.strip(l)
+        if l[0] == "param" and isinstance(l[1], int):
+            pidx.add(l[1])
+        else:
+            return False
+    if not pidx:
+        return False
+    sites = 0
+    for k2, cb in facts.bodies.items():
+        if cb["glue"]:
+            continue
+        for blk in cb["blocks"]:
+            t = blk["term"]
+            if t["k"] != "call" or F.callee_name(t) != b["path"]:
+                continue
+            sites += 1
+            env = {}
+            for i in pidx:
+                o = C08.origin(cb, t["args"][i - 1])
+                if o[0] != "const" or o[1] is None:
+                    return False
+                env[("param", i)] = o[1]
+                env[A.W(("param", i), 64)] = o[1]
+            vx, vy = U.eval_term(x, env, A.Path()), U.eval_term(y, env, A.Path())
+            if vx is None or vy is None or not (vx < vy if strict else vx <= vy):
+                return False
+    return sites > 0
 
 
 # --------------------------------------------------------------------------- inventory
